@@ -81,8 +81,6 @@ def parseOneOp (t : String) : Option Aead.OneOp :=
 
 /-! ### Impl side -/
 
-def errStr (e : String) : String := e
-
 def implSeal (R : Nat) (key nonce aad pt : Bytes) : String :=
   match Aead.ChaChaPoly1305.new E R key nonce aad with
   | .error e => e
